@@ -11,6 +11,8 @@ import (
 	cmttypes "github.com/cometbft/cometbft/types"
 
 	cryptocodec "github.com/cosmos/cosmos-sdk/crypto/codec"
+	kmultisig "github.com/cosmos/cosmos-sdk/crypto/keys/multisig"
+	cryptotypes "github.com/cosmos/cosmos-sdk/crypto/types"
 	sdk "github.com/cosmos/cosmos-sdk/types"
 	"github.com/cosmos/cosmos-sdk/types/query"
 
@@ -40,7 +42,7 @@ type vsState struct {
 	mirror    *cmttypes.ValidatorSet // never mutated in place
 	plans     map[uint64]opchildtypes.ExecutorChangePlan
 	removed   map[string]bool // operators whose RemoveValidator was accepted in the current block
-	histConst bool            // HistoricalEntries unchanged since genesis
+	histConst bool            // no block has begun with HistoricalEntries=0 so far (records are contiguous)
 	execs     []string        // model: authorised bridge executors (account names)
 	plan      *vsPlan
 	mirrorAt  map[int64]string // canonical mirror set as of BeginBlock(h) for recent heights
@@ -135,7 +137,7 @@ func (y *vsSys) Letters(s *vsState) []engine.Letter {
 	for _, m := range []int{1, 2, 3} {
 		ls = append(ls, engine.Letter{Name: fmt.Sprintf("UpdateParams(MaxValidators=%d)", m), Data: vsParam{m, -1}})
 	}
-	for _, h := range []int{0, 1, 2} {
+	for _, h := range []int{0, 1, 3} {
 		ls = append(ls, engine.Letter{Name: fmt.Sprintf("UpdateParams(HistoricalEntries=%d)", h), Data: vsParam{0, h}})
 	}
 	ls = append(ls, engine.Letter{Name: "NextBlock", Data: vsNextBlock{}})
@@ -148,6 +150,8 @@ func (y *vsSys) Letters(s *vsState) []engine.Letter {
 			}
 			ls = append(ls, engine.Letter{Name: fmt.Sprintf("RegisterPlan(h+%d,o3,k3,execs=[e1,e2])", dh), Data: vsRegister{dh, "o3", "k3", []string{"e1", "e2"}}})
 			ls = append(ls, engine.Letter{Name: fmt.Sprintf("RegisterPlan(h+%d,o3,k3,execs=[])", dh), Data: vsRegister{dh, "o3", "k3", nil}})
+			// a decodable public key of a type no consensus engine key can be made from
+			ls = append(ls, engine.Letter{Name: fmt.Sprintf("RegisterPlan(h+%d,o3,%s,execs=[e2])", dh, vsUnusableKey), Data: vsRegister{dh, "o3", vsUnusableKey, []string{"e2"}}})
 		}
 	}
 	return ls
@@ -168,8 +172,16 @@ func (s *vsState) child(ctx sdk.Context) *vsState {
 	return &vsState{ctx: ctx, w: s.w, mirror: s.mirror, plans: s.plans, removed: s.removed, histConst: s.histConst, execs: s.execs, plan: s.plan, mirrorAt: s.mirrorAt}
 }
 
+// vsUnusableKey names a 1-of-1 multisig public key: a registered, decodable cryptotypes.PubKey that
+// cannot be converted into a CometBFT validator key.
+const vsUnusableKey = "multisig(k3)"
+
 func pubKeyJSON(w *world.L2, key string) string {
-	bz, err := w.Enc.Marshaler.MarshalInterfaceJSON(world.EdKey(key).PubKey())
+	var pk cryptotypes.PubKey = world.EdKey(key).PubKey()
+	if key == vsUnusableKey {
+		pk = kmultisig.NewLegacyAminoPubKey(1, []cryptotypes.PubKey{world.EdKey("k3").PubKey()})
+	}
+	bz, err := w.Enc.Marshaler.MarshalInterfaceJSON(pk)
 	if err != nil {
 		panic(err)
 	}
@@ -268,9 +280,6 @@ func (y *vsSys) Step(s *vsState, l engine.Letter) (*vsState, string, *engine.Vio
 			p.MaxValidators = uint32(d.maxVals)
 		}
 		if d.hist >= 0 {
-			if p.HistoricalEntries != uint32(d.hist) {
-				c.histConst = false
-			}
 			p.HistoricalEntries = uint32(d.hist)
 		}
 		res := s.w.Deliver(ctx, opchildtypes.NewMsgUpdateParams(s.w.Authority, &p))
@@ -294,6 +303,9 @@ func (y *vsSys) Step(s *vsState, l engine.Letter) (*vsState, string, *engine.Vio
 		// facts for the oracle / known-finding predicates, taken before registration
 		pl := &vsPlan{height: h, op: d.op, key: d.key, execs: d.execs}
 		err := s.w.K.RegisterExecutorChangePlan(1, h, valOf(d.op), "planval", pubKeyJSON(s.w, d.key), "info", execs)
+		if err != nil && d.key == vsUnusableKey {
+			return c, "rejected-unusable-key", nil // refusing a key the engine cannot use is fine
+		}
 		if err != nil {
 			return c, "rejected", viol("well-formed-plan-is-registered", "registration of a well-formed plan failed: %v", err)
 		}
@@ -373,8 +385,13 @@ func (y *vsSys) nextBlock(s, c *vsState) (*vsState, string, *engine.Violation) {
 	nm := s.mirror.Copy()
 	if err := nm.UpdateWithChangeSet(tmvals); err != nil {
 		if strings.Contains(err.Error(), "would result in empty set") {
-			// outside the property's acceptance clause (three listed conditions): classified, path stopped
-			return c, "engine-rejected-empty-set", &engine.Violation{Clause: "cut:engine-rejected-empty-set", Msg: "removing the last validator: CometBFT refuses an empty set"}
+			// Removing the last validator is outside the property's acceptance clause (three listed
+			// conditions): classified, path stopped — but only if the state really has no validator
+			// with positive power left and no plan was due; a batch that empties the engine's set while
+			// the state still holds a positive-power validator (e.g. the plan validator) is a bad batch.
+			if pos, _, _, _ := s.stateSets(ctx); len(pos) == 0 && !planNow {
+				return c, "engine-rejected-empty-set", &engine.Violation{Clause: "cut:engine-rejected-empty-set", Msg: "removing the last validator: CometBFT refuses an empty set"}
+			}
 		}
 		return c, "bad-batch", T(viol("batch-accepted-by-consensus-engine", "CometBFT rejects the batch: %v", err))
 	}
@@ -472,8 +489,13 @@ func (y *vsSys) nextBlock(s, c *vsState) (*vsState, string, *engine.Violation) {
 			return c, "hist", viol("historical-record-lists-bonded-set", "record at %d carries header height %d", h+1, hi.Header.Height)
 		}
 	}
-	if s.histConst {
-		// constant retention since genesis: stored heights ⊆ (h+1-entries, h+1]
+	if entries == 0 {
+		c.histConst = false
+	}
+	if c.histConst {
+		// every block so far stored a record, so the records are contiguous and the pruning walk
+		// reaches all of them, also after the retention was lowered by several steps at once:
+		// stored heights ⊆ (h+1-entries, h+1]
 		var bad []int64
 		it, err := s.w.K.HistoricalInfos.Iterate(nctx, nil)
 		if err == nil {
